@@ -347,6 +347,10 @@ func createUpstreamRequest(rw http.ResponseWriter, r *http.Request) (*http.Reque
 
 	outreq := r.WithContext(ctx) // includes shallow copies of maps, but okay
 
+	// "Connection: close" from the client is about the client's connection;
+	// left set, the transport would send that hop-by-hop header upstream
+	outreq.Close = false
+
 	// We should set body to nil explicitly if request body is empty.
 	// For server requests the Request Body is always non-nil.
 	if r.ContentLength == 0 {
